@@ -151,3 +151,79 @@ def region_subsecond_total(cfg):
 
 
 REGIONS = {"subsecond_total": region_subsecond_total}
+
+
+# --- Process.cpu_percent ------------------------------------------------------------------------------
+import collections as _collections  # noqa: E402
+from .frontproc import make_process  # noqa: E402
+
+pcputimes = _collections.namedtuple("pcputimes", ["user", "system", "children_user", "children_system", "iowait"])
+
+
+def setup_pcpu(it, cfg):
+    o = make_process(it)
+    n = cfg["ncpu"]
+    T1 = it.fresh("T1", "Real")
+    T2a = it.fresh("T2a", "Real")       # timer readings of this call (non-decreasing)
+    T2b = it.fresh("T2b", "Real")
+    it.assume(And(smt.Cmp("<=", T1, T2a), smt.Cmp("<=", T2a, T2b), smt.Cmp(">=", T1, R(0))))
+    pt_old = fresh_nt(it, pcputimes, "pt_old", nonneg=True)
+    samples = [fresh_nt(it, pcputimes, "pt_a", nonneg=True), fresh_nt(it, pcputimes, "pt_b", nonneg=True)]
+    reads = {"timer": 0, "cpu": 0}
+
+    def timer(it2):
+        reads["timer"] += 1
+        return T2a if reads["timer"] == 1 else T2b
+
+    def cpu_times(it2):
+        reads["cpu"] += 1
+        return samples[0] if reads["cpu"] == 1 else samples[1]
+
+    it.env_over["__init__._timer"] = EnvFunc("_timer", timer)
+    it.env_over["__init__.cpu_count"] = EnvFunc("cpu_count", lambda it2, *a, **k: (n if n else None))
+    it.env_over["time.sleep"] = EnvFunc("sleep", lambda it2, d: it2.ctx.log.append(("sleep", d)))
+    o.attrs["_proc"].attrs["cpu_times"] = EnvFunc("cpu_times", cpu_times)
+    first = cfg["first"]
+    if not first:
+        o.attrs["_last_sys_cpu_times"] = smt.Mul(T1, R(n or 1))
+        o.attrs["_last_proc_cpu_times"] = pt_old
+    mode = cfg["mode"]
+    if mode == "none":
+        interval = None
+    elif mode == "zero":
+        interval = 0.0
+    elif mode == "neg":
+        interval = it.fresh("interval", "Real")
+        it.assume(smt.Cmp("<", interval, R(0)))
+    else:
+        interval = it.fresh("interval", "Real")
+        it.assume(smt.Cmp(">", interval, R(0)))
+    return {"args": {"self": o, "interval": interval},
+            "spec": {"T1": T1, "T2a": T2a, "T2b": T2b, "pt_old": pt_old, "pa": samples[0], "pb": samples[1],
+                     "n": n or 1, "first": first, "mode": mode},
+            "values": [T1, T2a, T2b]}
+
+
+PCPU_CFGS = [{"ncpu": n, "first": f, "mode": m} for n in (1, 4, 0) for f in (True, False)
+             for m in ("none", "zero", "block", "neg")]
+
+REGISTRY.add(Contract(
+    "C07", INIT, "Process.cpu_percent", setup=setup_pcpu, env=BASE_ENV, configs=PCPU_CFGS, inline=["timer"],
+    ensures=[
+        # first non-blocking call: 0.0
+        "implies(mode in ('none', 'zero') and first, result == 0.0)",
+        # non-blocking with a previous sample: 100 * cpu seconds used / wall seconds elapsed since the previous call
+        "implies(mode in ('none', 'zero') and not first and T2a > T1, "
+        "abs(result * (T2a - T1) - 100 * ((pa.user - pt_old.user) + (pa.system - pt_old.system))) <= 0.05 * (T2a - T1))",
+        "implies(mode in ('none', 'zero') and not first and T2a == T1, result == 0.0)",
+        # blocking: between the two samples taken around the sleep
+        "implies(mode == 'block' and T2b > T2a, "
+        "abs(result * (T2b - T2a) - 100 * ((pb.user - pa.user) + (pb.system - pa.system))) <= 0.05 * (T2b - T2a))",
+        # every call leaves its last sample behind for the next non-blocking call
+        "implies(mode in ('none', 'zero'), self._last_sys_cpu_times == T2a * n and self._last_proc_cpu_times == pa)",
+        "implies(mode == 'block', self._last_sys_cpu_times == T2b * n and self._last_proc_cpu_times == pb)",
+    ],
+    raises={"ValueError": "mode == 'neg'"},
+    canaries=["result == 7.25"], replay=None,
+    note="100*(CPU seconds used)/(wall seconds elapsed) since that object's previous call; 0.0 on the first call; "
+         "negative interval -> ValueError"))
